@@ -807,6 +807,12 @@ func (r *runner) exec(c Call) (ret map[string]interface{}, err error) {
 		if n > 0 {
 			ret["data"] = base64.StdEncoding.EncodeToString(buf[:n])
 			ret["pieces"] = r.decompose(buf[:n])
+			sum := sha256.Sum256(buf[:n])
+			if b, ok := r.shaBlob[hex.EncodeToString(sum[:8])]; ok {
+				ret["blob"] = b
+			} else {
+				ret["blob"] = -1
+			}
 		}
 	case "readat":
 		f := r.getFile(c.H)
